@@ -93,6 +93,9 @@ def main():
     OUT.mkdir(exist_ok=True)
     sh("git checkout -q -- .", cwd=WT)
     ms = mutants()
+    flt = os.environ.get('MUT_FILTER')
+    if flt:
+        ms = [m for m in ms if re.search(flt, f"{m['file']}:{m['line']}") or re.search(flt, m['file'])]
     random.Random(seed).shuffle(ms)
     done = set()
     res = OUT / "RESULTS.jsonl"
